@@ -98,15 +98,20 @@ def main():
     for r in undecided:
         m = re.search(r'lost-anchor: (?:impl (\S+) :: )?fn (\w+):', r.get('reason') or '')
         found = None
+        fname = None
         if m:
             fname = ('%s::%s' % (m.group(1), m.group(2))) if m.group(1) else m.group(2)
+        elif r.get('unsupported_fn'):
+            # the spliced text of this function no longer compiles (its body was rewritten)
+            fname = r['unsupported_fn']
+        if fname:
             try:
                 import kanirun
                 cex = kanirun.counterexample_for({'function': fname})
             except Exception as e:
                 cex = {'found': False, 'note': str(e)}
             if cex.get('found'):
-                found = {'obligation': 'kani-twin/%s (proof anchors of this function were lost)' % fname,
+                found = {'obligation': 'kani-twin/%s (the proof text no longer fits the changed body)' % fname,
                          'function': fname, 'kind': 'kani-twin', 'props': [pid], 'where': [],
                          'message': 'bounded twin %s fails' % cex.get('harness'),
                          'rendered': (r.get('reason') or '') + '\n' + (cex.get('native_output') or '')[-1500:],
